@@ -1,5 +1,6 @@
 """C12 - DOT export declares exactly the admitted nodes and only edges between them."""
 import collections
+import decimal
 import os
 import tempfile
 import warnings
@@ -9,7 +10,7 @@ from hypothesis import strategies as st
 from anytree import Node
 from anytree.exporter import DotExporter, UniqueDotExporter
 
-from .. import forest, nodes, refs, shapes, strategies
+from .. import forest, nodes, refs, resolver_ref as rr, shapes, strategies
 from ..core import Violation
 from . import c06
 
@@ -34,6 +35,34 @@ NAME_ALPHABET = "abnlr \"\\\\'\n\té漢-:{}[];>"
 
 
 NODE_CLASSES = {"Node": Node, "EqNode": nodes.EqNode, "FalsyNode": nodes.FalsyNode, "LenNode": nodes.LenNode}
+
+
+# names that are not plain strings, or whose text needs care: equal-but-different numbers, str subclasses with their own
+# __str__, text that cannot be encoded (lone surrogates, as produced by the 'surrogateescape' handler for file names)
+EXOTIC_NAMES = [{"float": "0.0"}, {"float": "-0.0"}, {"dec": "1.0"}, {"dec": "1.00"}, {"bool": True}, {"int": 1}, {"tag": 'q"x'}, {"tag": "plain"}, "plain", "caf\udce9", "caf\udce8", "caf?", {"float": "1e+22"}, {"none": 1}]
+
+
+def decode_name(spec):
+    if not isinstance(spec, dict):
+        return spec
+    if "float" in spec:
+        return float(spec["float"])
+    if "dec" in spec:
+        return decimal.Decimal(spec["dec"])
+    if "bool" in spec:
+        return bool(spec["bool"])
+    if "int" in spec:
+        return int(spec["int"])
+    if "tag" in spec:
+        return rr.TaggedName(spec["tag"])
+    if "none" in spec:
+        return None
+    raise ValueError(spec)
+
+
+def exotic_names(size, offset):
+    pool = EXOTIC_NAMES[offset % len(EXOTIC_NAMES):] + EXOTIC_NAMES[: offset % len(EXOTIC_NAMES)]
+    return [pool[i] if i < len(pool) else "n%d" % i for i in range(size)]
 
 
 def esc(text):
@@ -318,7 +347,7 @@ def check_exporter(case, kind, tree, labels, acc):
 def check_case(case, acc):
     names = case["names"]
     nodecls = NODE_CLASSES[case.get("cls", "Node")]
-    tree = forest.build_tree(case["shape"], lambda i: nodecls(names[i]))
+    tree = forest.build_tree(case["shape"], lambda i: nodecls(decode_name(names[i])))
     labels = forest.Labels(tree)
     before = forest.snapshot(tree, labels)
     results = {}
@@ -385,7 +414,7 @@ def _enum_cases(max_nodes, index, count):
             for idx in sub[1:]:
                 depth[idx] = depth[parents[idx]] + 1
             height = max(depth.values())
-            names = special_names(size, k)
+            names = special_names(size, k) if k % 6 else exotic_names(size, k // 6)
             for stop in shapes.subsets(sub):
                 for hide in shapes.subsets(sub):
                     for maxlevel in [None] + list(range(0, height + 3)):
@@ -407,6 +436,8 @@ def random_cases(draw, exporters=("DotExporter", "UniqueDotExporter", "RenderTre
         kinds = ["UniqueDotExporter"]
     else:
         names = ["%s%d" % (draw(NAME), i) if draw(st.booleans()) else "%d%s" % (i, draw(NAME)) for i in range(size)]
+        if draw(st.integers(0, 3)) == 0:
+            names = exotic_names(size, draw(st.integers(0, 13)))
         kinds = list(exporters)
     case = {
         "shape": shape,
@@ -417,7 +448,7 @@ def random_cases(draw, exporters=("DotExporter", "UniqueDotExporter", "RenderTre
         "maxlevel": draw(st.one_of(st.none(), st.integers(0, 6))),
         "truth": draw(st.integers(0, 3)),
         "exporters": kinds,
-        "to_file": draw(st.integers(0, 9)) == 0,
+        "to_file": draw(st.integers(0, 9)) == 0 and not any(isinstance(n, str) and any(0xD800 <= ord(ch) <= 0xDFFF for ch in n) for n in names),  # lone surrogates cannot be written as UTF-8
         "mutations": draw(strategies.tree_mutations(max_ops=2)),
         "cls": draw(st.sampled_from(["Node", "Node", "EqNode", "FalsyNode", "LenNode"])),
     }
